@@ -84,6 +84,8 @@ def comm_runs(seed, tier):
             kv = dict(t.split('=') for t in l.split()[1:])
             if kv['ok'] != '1':
                 fails.append({'what': 'functor state or arguments of message %s arrived changed (functor size %s)' % (kv['uid'], kv['fsize']), 'config': cfg, 'cmd': r['cmd']}); break
+            if int(kv['uid']) % 100000 >= 50000:
+                continue        # a broadcast leg: re-packed by the forwarding stages, byte counts are not compared
             # each handler consumes exactly the bytes its sender packed for it (2 of them are the lambda id, read by the dispatcher)
             body = packed.get(kv['uid'])
             if body is not None and int(kv['consumed']) != body - 2:
@@ -93,8 +95,10 @@ def comm_runs(seed, tier):
             # the modelled layout (Wire.v): functor bytes, 8-byte size tags
             if kv['consumed'] != kv['expect']:
                 fails.append({'what': 'handler of message %s consumed %s bytes, the modelled layout has %s (functor size %s)' % (kv['uid'], kv['consumed'], kv['expect'], kv['fsize']), 'config': cfg, 'cmd': r['cmd'], 'level': 'model'}); break
-        if len(xs) != n * (60 if tier == 'quick' else 300):
-            fails.append({'what': '%d handler executions for %d messages' % (len(xs), n * (60 if tier == 'quick' else 300)), 'config': cfg, 'cmd': r['cmd']})
+        cnt = 60 if tier == 'quick' else 300
+        want = n * cnt + n * n * (cnt // 10)
+        if len(xs) != want:
+            fails.append({'what': '%d handler executions; %d asyncs and %d broadcasts with stateful functors on %d ranks need %d' % (len(xs), n * cnt, n * (cnt // 10), n, want), 'config': cfg, 'cmd': r['cmd']})
     return nmsg, fails
 
 def coq_check(lines, tag='codec'):
